@@ -32,7 +32,9 @@ def probe_file(b):
              b.expr_stmt(b.un('PreIncrement', v('q'))),
              # second occurrences of the multi-token vulnerability patterns (a finding after one that spans several lines in some layouts)
              b.expr_stmt(b.bin('Multiply', b.bin('Divide', v('q'), n(4)), n(5))),
-             b.expr_stmt(b.call(b.member(b.call(v('IERC20'), [v('t')]), 'approve'), [v('t'), n(2)]))]
+             b.expr_stmt(b.call(b.member(b.call(v('IERC20'), [v('t')]), 'approve'), [v('t'), n(2)])),
+             # a revert string written as three adjacent parts (they stand on different lines in some layouts)
+             b.expr_stmt(b.call(v('require'), [b.bin('Less', v('q'), n(9)), b.strings(['first part, ', 'second part ', 'and a third part of the message'])]))]
     parts = [b.state_var(u(), 'alpha'), b.state_var(u(), 'beta'), b.state_var(b.ty('Uint', 8), 'gamma', [b.vattr('visibility', 'private')]),
              b.state_var(u(), 'delta', [b.vattr('constant'), b.vattr('visibility', 'public')], n(5)), b.state_var(b.ty('Address'), 'owner'),
              b.state_var(b.ty('Address'), 'factory', [b.vattr('immutable')]), b.state_var(b.ty('Bool'), 'flagA', [b.vattr('visibility', 'private')]),
@@ -421,7 +423,8 @@ def native_sequences(chk):
         # file system that lists by creation history (tmpfs: newest first) the same tree is created contracts-first and contracts-last
         import shutil, tempfile
         shm = '/dev/shm' if os.path.isdir('/dev/shm') and os.access('/dev/shm', os.W_OK) else chk.native.dir
-        contracts = [('Main.sol', t), ('Aaa.sol', tw), ('sub/Mid.sol', tw), ('sub/Main.sol', shifted)]
+        # ... and a contract 45 directories down (its verdict is the one it has when analysed on its own, wherever the run starts)
+        contracts = [('Main.sol', t), ('Aaa.sol', tw), ('sub/Mid.sol', tw), ('sub/Main.sol', shifted), ('/'.join(['n%d' % (k % 7) for k in range(45)]) + '/Deep.sol', shifted)]
         others = [('README.md', '# readme\n'), ('.gitkeep', ''), ('notes', 'no extension\n'), ('Main.t.sol', t), ('sub/abi.json', '{}\n'), ('sub/Mid.t.sol', tw)]
         for what, order in (('created before the contracts', others + contracts), ('created after the contracts', contracts + others),
                             ('created between the contracts', contracts[:1] + others[:3] + contracts[1:3] + others[3:] + contracts[3:])):
@@ -430,6 +433,7 @@ def native_sequences(chk):
                 os.makedirs(os.path.join(base, 'sub'))
                 os.makedirs(os.path.join(base, 'empty'))
                 for nm, content in order:
+                    os.makedirs(os.path.dirname(os.path.join(base, nm)), exist_ok=True)
                     open(os.path.join(base, nm), 'w').write(content)
                 got, want, raw = dl.native_union(chk, cat, base, names)
                 chk.states += 1
